@@ -5,7 +5,9 @@ from vlib.props.c06 import GSTUBS
 INFO = {
     "rule": "Chain src -> probe0 -> probe1 -> null sink on Graph::run; failing position, failing call index k, cancelling call index j, "
             "source length, finite/infinite source enumerated; data symbolic.",
-    "bounds": "k, j in 1..3; chain positions 0..1; source length 1..3 (finite) or infinite repeat; capacity 2; pre-cancelled token.",
+    "bounds": "cancellation: chain src -> probe -> probe -> null sink, j in 1..3, source length 3 (finite) or infinite repeat, capacity 2, pre-cancelled token. "
+              "error propagation: graphs of stream-less blocks (0..2 blocks that end at once, then a block failing on its k-th call, k in 1..3); the same "
+              "through a chain with streams is enumerated in the thorough tier but has not finished within 1500 s per instance.",
     "outside": "MTGraph (needs OS threads: thread::Builder::spawn/JoinHandle cannot be executed or stubbed in Kani) - in particular its "
                "join().expect() behaviour on a failing block is NOT decided by this check; cancellation from another thread at arbitrary "
                "instructions (the single-threaded runner only polls between passes, so 'a block cancels during its j-th call' covers every "
@@ -20,11 +22,18 @@ def all_harnesses():
     for pos in (0, 1):
         for k in (1, 2, 3):
             for (ln, inf) in ((1, False), (3, False), (2, True)):
-                core = (k in (1, 2) and ln == 3 and not inf) or (k == 2 and inf and pos == 1)
+                core = False  # the error path through a chain with streams does not finish in 1500 s (drop glue of rustradio::Error)
                 hs.append(Harness(f"c07_fail_p{pos}_k{k}_l{ln}_{'inf' if inf else 'fin'}",
                                   f"crate::c06::failing_block({pos}, {k}, {ln}, 2, {str(inf).lower()})", unwind=28,
                                   unit="Graph::run error propagation", stubs=GSTUBS, timeout=1500,
                                   shape={"position": pos, "k": k, "len": ln, "infinite": inf}, core=core))
+    for before in (0, 1, 2):
+        for k in (1, 2, 3):
+            h = Harness(f"c07_failmin_b{before}_k{k}", f"crate::c06::failing_minimal({before}, {k})", unwind=28,
+                        unit="Graph::run error propagation (stream-less blocks)", stubs=GSTUBS, timeout=1500,
+                        shape={"blocks_before": before, "k": k}, core=((before, k) in ((0, 1), (1, 2))))
+            h.quick_timeout = 800
+            hs.append(h)
     for j in (1, 2, 3):
         for (ln, inf) in ((3, False), (2, True)):
             hs.append(Harness(f"c07_cancel_j{j}_l{ln}_{'inf' if inf else 'fin'}",
@@ -37,4 +46,4 @@ def all_harnesses():
 
 
 def harnesses(tier, seed):
-    return select(all_harnesses(), tier, seed, 4)
+    return select(all_harnesses(), tier, seed, 4, max_one=400)
